@@ -170,6 +170,8 @@ def run(ctx):
         "rule": "TLC-enumerated texts (every token sequence up to the bound) + seeded random texts; non-trivial = at least one of the four parses yields segments",
         "traces_validated_against_impl": validated,
         "per_character_state_traces": traces,
+        "internal_state_binding": "available" if __import__("harness.pathobs", fromlist=["x"]).INTERNALS_AVAILABLE else
+                                  "unavailable: _parse_path no longer has the local variables the binding reads (refactored?); judged on outcomes, segments and strings only",
         "exhaustive": True,
         "model_drift": drift + tdrift,
         "pinned_model_predicts": pinned["violated"],
